@@ -137,6 +137,9 @@ pub fn run_cov(c: &CovCase, work: &str, uid: &str) -> (Result<(), String>, Vec<u
     let prev = c.prev.as_ref().map(|a| write_input(work, &format!("{}prev", uid), a, "fa"));
     let dir = format!("{}/cov_{}", work, uid);
     let _ = std::fs::create_dir_all(&dir);
+    if stale_case(&c.req()) {
+        plant_counter_dir(&dir, c.threads.max(3) + 2);
+    }
     let result = catch(std::panic::AssertUnwindSafe(|| {
         let mut cc = CovComputer::new(inp.clone(), dir.clone(), c.k, c.bin_size, c.bin_count);
         cc.set_threads(c.threads);
@@ -299,7 +302,7 @@ pub fn run_c08_files(tier: &str, rng: &mut Rng, model: &Model, rep: &mut Report,
             recs,
             alt,
             k,
-            bin_size: *rng.pick(&[1usize, 1, 2, 3, 5, 16]),
+            bin_size: *rng.pick(&[1usize, 1, 2, 3, 5, 16, 49, (1 << 32) + 1, (1 << 32) + 5]),
             bin_count: *rng.pick(&[1usize, 2, 3, 5, 16]),
             norm: rng.chance(1, 2),
             delim: rng.pick(&[b" ".to_vec(), b",".to_vec(), b"\t".to_vec()]).clone(),
